@@ -59,7 +59,9 @@ def run(ctx: Ctx) -> None:
     ctx.trusted += ["lark, jsonschema, jsonref, re, logging, json, copy are pure / thread-safe for distinct objects", "mutator-method table: " + ", ".join(sorted(MUTATORS))]
     ctx.not_decided += ["thread-safety of third-party libraries themselves"]
     ctx.units.update(facts.stats())
-    reach = facts.reachable(PUBLIC_API)
+    # private helpers in the list (utils._pprint) may be inlined away; the public names must exist
+    api = [q for q in PUBLIC_API if repo.has_func(q) or not q.split(".")[-1].startswith("_")]
+    reach = facts.reachable(api)
     ctx.units["functions_reachable_from_public_api"] = len(reach)
 
     # ---- S1 ------------------------------------------------------------------------------------
@@ -104,7 +106,8 @@ def run(ctx: Ctx) -> None:
 
     # ---- S3 ------------------------------------------------------------------------------------
     ctx.rule("S3", "each public entry point builds its worker objects in its own body (fresh per call)", 7)
-    for q in ["utils.open", "utils.load", "utils.loads", "utils.validate", "utils.create", "utils._pprint", "cli.schema"]:
+    s3_entries = ["utils.open", "utils.load", "utils.loads", "utils.validate", "utils.create", "cli.schema"] + (["utils._pprint"] if repo.has_func("utils._pprint") else ["utils.dumps"])
+    for q in s3_entries:
         fn = repo.func(q)
         local = facts.local_types(q, fn)
         used = []
@@ -234,12 +237,27 @@ def _sound_memo_table(repo, E, cq: str, attr: str, tracked: set) -> tuple[bool, 
     on is never written outside __init__ - so V is a function of K and of construction-time options."""
     mod, cname = cq.split(".")
     meths = repo.module(mod).methods[cname]
-    init = meths.get("__init__")
-    if init is None:
-        return False, "no __init__"
-    inits = [st for st in ast.walk(init) if isinstance(st, (ast.Assign, ast.AnnAssign)) and any(isinstance(t, ast.Attribute) and t.attr == attr and isinstance(t.value, ast.Name) and t.value.id == "self" for t in (st.targets if isinstance(st, ast.Assign) else [st.target]))]
-    if len(inits) != 1 or not ((isinstance(inits[0].value, ast.Dict) and not inits[0].value.keys) or (isinstance(inits[0].value, ast.Call) and dotted(inits[0].value.func) in ("dict", "OrderedDict") and not inits[0].value.args)):
-        return False, "not initialised to an empty dict in __init__"
+    def is_empty_dict(v):
+        return (isinstance(v, ast.Dict) and not v.keys) or (isinstance(v, ast.Call) and dotted(v.func) in ("dict", "OrderedDict") and not v.args and not v.keywords)
+
+    def is_attr(t):
+        return isinstance(t, ast.Attribute) and t.attr == attr and isinstance(t.value, ast.Name) and t.value.id == "self"
+
+    # every binding of the attribute itself, anywhere in the class, is to a new empty dict
+    # (in __init__, or created lazily on first use)
+    n_bind = 0
+    for m, fn in meths.items():
+        for st in ast.walk(fn):
+            if isinstance(st, (ast.Assign, ast.AnnAssign)):
+                targets = st.targets if isinstance(st, ast.Assign) else [st.target]
+                if any(is_attr(t) for t in targets):
+                    if st.value is None or not is_empty_dict(st.value):
+                        return False, f"{m}: self.{attr} is bound to something other than a new empty dict"
+                    n_bind += 1
+            elif isinstance(st, ast.AugAssign) and is_attr(st.target):
+                return False, f"{m}: augmented assignment to self.{attr}"
+    if not n_bind:
+        return False, "never bound to an empty dict"
     n_store = 0
     for m, fn in meths.items():
         if m == "__init__":
@@ -274,10 +292,18 @@ def _sound_memo_table(repo, E, cq: str, attr: str, tracked: set) -> tuple[bool, 
                             attrs |= b
             return names, attrs
 
+        # locals that stand for the table: ``t = self.attr`` / ``t = self.attr = {}``
+        table_names = set()
+        for st in ast.walk(fn):
+            if isinstance(st, ast.Assign) and any(is_attr(t) for t in st.targets) or (isinstance(st, ast.Assign) and is_attr(st.value)):
+                table_names |= {t.id for t in st.targets if isinstance(t, ast.Name)}
         for n in ast.walk(fn):
-            if not (isinstance(n, ast.Attribute) and n.attr == attr and isinstance(n.value, ast.Name) and n.value.id == "self"):
+            is_tbl = is_attr(n) or (isinstance(n, ast.Name) and n.id in table_names)
+            if not is_tbl:
                 continue
             par = parents.get(n)
+            if isinstance(par, ast.Assign) and (n in par.targets or par.value is n):
+                continue  # the binding itself (checked above) or taking the alias
             if isinstance(par, ast.Subscript) and par.value is n:
                 if isinstance(par.ctx, ast.Load):
                     continue  # keyed read
@@ -339,6 +365,8 @@ def _read_before_write(repo, facts, cq: str, meth: str, attr: str) -> list:
         return written
 
     def stmt(st: ast.stmt, written: bool, stack: tuple) -> bool:
+        if isinstance(st, ast.Expr) and isinstance(st.value, ast.Call) and isinstance(st.value.func, ast.Attribute) and st.value.func.attr == "clear" and is_self_attr(st.value.func.value) and not st.value.args:
+            return True  # self.x.clear() empties the container: whatever a previous call left is gone
         if isinstance(st, (ast.Assign, ast.AugAssign, ast.AnnAssign)):
             targets = st.targets if isinstance(st, ast.Assign) else [st.target]
             store_bases = set()
